@@ -21,6 +21,30 @@ type FmtCase struct {
 	FinalNL bool              `json:"final_nl"`
 	TrailBl int               `json:"trail_blank"` // extra blank lines at the end
 	Lab     []string          `json:"labels,omitempty"`
+	// Target is the argument naming the file ("" = 932100): NNNNNN, NNNNNN.ra, NNNNNN-chainK[.ra]. For chained
+	// targets the chain starter's file 932100.ra exists too (unformatted) and must stay as it is.
+	Target string `json:"target,omitempty"`
+}
+
+func (c FmtCase) Arg() string {
+	if c.Target == "" {
+		return "932100"
+	}
+	return c.Target
+}
+
+// FileRel is the path (below the CRS root) of the file the argument names.
+func (c FmtCase) FileRel() string {
+	return "regex-assembly/" + strings.TrimSuffix(c.Arg(), ".ra") + ".ra"
+}
+
+const fmtSibling = "  sibling of the chained file\n##!>   assemble\nx\n##!<\n\n\n"
+
+// Sibling adds the chain starter's file for chained targets.
+func (c FmtCase) Sibling(tree map[string]string) {
+	if strings.Contains(c.Arg(), "-chain") {
+		tree["regex-assembly/932100.ra"] = fmtSibling
+	}
 }
 
 // Content renders the file bytes.
@@ -51,6 +75,7 @@ func genFmtCase(t *rapid.T, disagree bool) FmtCase {
 	c := FmtCase{EOL: "\n", FinalNL: true, Header: "none", Files: map[string]string{}}
 	kind := rapid.SampledFrom([]string{"structured", "structured", "structured", "structured", "raw", "boundary"}).Draw(t, "kind")
 	c.Kind = kind
+	c.Target = rapid.SampledFrom([]string{"", "", "", "932100.ra", "932100-chain2", "932100-chain2.ra", "932100-chain255"}).Draw(t, "target")
 	switch kind {
 	case "boundary":
 		c.Raw = rapid.SampledFrom([]string{"", "\n", "\n\n\n", "   ", " \t \n", "\r\n", raHeader, raHeader + "\n", raHeader + "\n\n\n", strings.TrimSuffix(raHeader, "\n"), raHeader + "foo", raHeader + "\nfoo", raHeader + "\nfoo\n\n\n", "foo", "foo\n\n", "\n\nfoo", "##!> assemble\n##!<", "##!> assemble\nfoo\n"}).Draw(t, "boundary")
